@@ -206,6 +206,13 @@ class SymBool:
     def __bool__(self):
         ex = St.explorer
         if ex is None:
+            # no exploration in progress: only a condition that is valid or unsatisfiable on its own can be decided
+            s = z3.Solver()
+            s.set("timeout", 5000)
+            if s.check(z3.Not(self.e)) == z3.unsat:
+                return True
+            if s.check(self.e) == z3.unsat:
+                return False
             raise RuntimeError("symbolic branch outside an Explorer: %s" % self.e)
         return ex.branch(self.e)
 
@@ -475,6 +482,9 @@ class Sym:
             return SymBool(e if name == "eq" else z3.Not(e))
         if conc(self.re) and conc(o.re):
             return bool(op(self.re, o.re))
+        if not conc(self.re) and not conc(o.re) and self.re.eq(o.re):
+            # the same term on both sides: decided without a fork (matters for dict / cache lookups)
+            return name in ("eq", "le", "ge")
         if St.mode == "EUF":
             if name == "eq":
                 return SymBool(uf("feq", 2, z3.BoolSort())(z(self.re), z(o.re)))
@@ -917,6 +927,8 @@ class SA(numpy.ndarray):
 
     def astype(self, dtype, *a, **k):
         dt = _dt(dtype)
+        if dt is not None and dt.kind in "fc" and dt.itemsize >= 8 and k.get("copy", True) is False and St.mode == "REAL":
+            return self          # symbolic arrays stand for float64/complex128: astype(copy=False) aliases
         if dt is not None and dt.kind in "fc":
             if St.mode == "EUF" and dt.itemsize == 4:
                 f = uf("cast32", 1)
